@@ -2,7 +2,7 @@
 import traceback
 from datetime import datetime, timedelta, timezone
 
-from ..gen.common import corpus, rng
+from ..gen.common import MN, WN, corpus, dst_wall_case, rng
 from ..hooks import AnchorCounter
 from ..monitors import ConservationMonitor
 from ..util import iso, parse_iso
@@ -14,7 +14,9 @@ RULE = ("the generator knows the class of what it builds: (a) valid configuratio
         "[datetime.min, datetime.max] naive or aware, CACHE_SIZE_LIMIT {0,1,2,5,1000,-1}, any PARSERS subset/order) x languages/"
         "locales/region x date_formats of distinct directives -> no exception may escape, value is None|datetime, DateData "
         "post-conditions, get_date_tuple agrees; (a') range-edge stratum (dates/relative phrases/epochs at 0001-01-01 and "
-        "9999-12-31 x offset suffixes x zone settings x extreme bases); (b) wrong types -> exactly TypeError; (c) unknown/"
+        "9999-12-31 x offset suffixes x zone settings x extreme bases); (a'') DST-edge stratum (wall times inside gaps/folds of "
+        "16 DST zones as time-only/date-time/relative/epoch strings, zone as TIMEZONE/TO_TIMEZONE, reference around the transition, "
+        "naive or aware); (b) wrong types -> exactly TypeError; (c) unknown/"
         "conflicting languages or locales -> exactly ValueError; (d) invalid settings x arbitrary strings incl. format-matching "
         "and empty ones -> exactly SettingValidationError. non-trivial distinct = distinct (class, string, configuration); "
         "escapes are deduplicated by (exception type, innermost library frame file:function).")
@@ -26,6 +28,7 @@ ANCHORS = [("dateparser.date", "_DateLocaleParser._try_freshness_parser"), ("dat
 N_A = {"quick": 2400, "thorough": 160000}
 N_EDGE = {"quick": 12000, "thorough": 200000}
 N_D = {"quick": 2400, "thorough": 40000}
+N_DST = {"quick": 6000, "thorough": 150000}
 
 TOKS = ["ago", "in", "am", "pm", "t", "z", "utc", "gmt", "+", "-", ":", ".", "/", ",", "st", "nd", "th", "of", "at", "on", "year",
         "month", "week", "day", "hour", "minute", "second", "decade", "now", "today", "yesterday", "tomorrow", "jan", "feb", "mar",
@@ -42,6 +45,7 @@ DIRECTIVES = "aAbBdHIjmMpSyYf"
 def shards(tier, seed):
     out = [{"part": "a", "i": i, "n": N_A[tier] // 12} for i in range(12)]
     out += [{"part": "edge", "i": i, "n": N_EDGE[tier] // 3} for i in range(3)]
+    out += [{"part": "dst", "i": i, "n": N_DST[tier] // 2} for i in range(2)]
     out += [{"part": "bcd", "i": 0, "n": N_D[tier]}]
     return out
 
@@ -288,6 +292,62 @@ def gen_edge(g):
     return {"cls": "a", "s": s, "formats": fm, "kw": {"languages": ["en"]}, "settings": st}
 
 
+def gen_dst(g):
+    """(a'') DST-edge stratum: wall times inside gaps/folds of DST-observing zones, written as time-only / date-time /
+    relative / epoch strings, with the zone as TIMEZONE and/or TO_TIMEZONE and a reference on or around the transition
+    (naive, or aware in that very zone with either is_dst reading)."""
+    rnd = g.rnd
+    w = dst_wall_case(rnd)
+    wall, base, zone = w["wall"], w["base"], w["zone"]
+    tz = g.pytz.timezone(zone)
+    k = rnd.random()
+    hm = "%02d:%02d" % (wall.hour, wall.minute)
+    if k < 0.3:
+        s = rnd.choice([hm, hm + ":00", wall.strftime("%I:%M %p"), wall.strftime("%I:%M%p").lower(), "at " + hm,
+                        hm + rnd.choice([" EST", " +0000", " UTC", " Z"])])
+    elif k < 0.55:
+        s = rnd.choice([wall.strftime("%Y-%m-%d %H:%M"), wall.strftime("%Y-%m-%dT%H:%M:%S"), "%d %s %d %s" % (wall.day, MN[wall.month - 1], wall.year, hm),
+                        "%s %d %s" % (MN[wall.month - 1], wall.day, hm), "%d %s %s" % (wall.day, MN[wall.month - 1], hm),
+                        "%s %s" % (WN[wall.weekday()], hm), WN[wall.weekday()], wall.strftime("%m/%d/%Y %H:%M"),
+                        wall.strftime("%d.%m.%y %H:%M"), "%s %d" % (MN[wall.month - 1], wall.year)])
+    elif k < 0.85:
+        s = rnd.choice(["in 1 hour", "1 hour ago", "in 30 minutes", "90 minutes ago", "in 1 day", "1 day ago", "yesterday " + hm,
+                        "today " + hm, "tomorrow at " + hm, "now", "in 24 hours", "1 week ago", "in 1 month", "1 year ago",
+                        "yesterday", "tomorrow", "in 2 hours " + hm, "1 day ago at " + hm, "next week", "last month"])
+    else:
+        import calendar as _cal
+
+        e = _cal.timegm(w["t_utc"].timetuple()) + rnd.choice([0, -1, 1, -1800, 1800, 3599, -3600])
+        s = str(e) + rnd.choice(["", "000", "999", "000000"])
+    st = {}
+    if rnd.random() < 0.75:
+        st["TIMEZONE"] = zone
+    if rnd.random() < 0.45:
+        st["TO_TIMEZONE"] = rnd.choice([zone, zone, "UTC", rnd.choice(EDGE_TZS[:-1])])
+    if not st or rnd.random() < 0.1:
+        st["TIMEZONE"] = zone
+    if rnd.random() < 0.4:
+        st["RETURN_AS_TIMEZONE_AWARE"] = rnd.random() < 0.5
+    kb = rnd.random()
+    if kb < 0.6:
+        st["RELATIVE_BASE"] = base
+    elif kb < 0.85:
+        try:
+            st["RELATIVE_BASE"] = tz.localize(base, is_dst=rnd.random() < 0.5)
+        except Exception:
+            st["RELATIVE_BASE"] = base
+    if rnd.random() < 0.7:
+        st["PREFER_DATES_FROM"] = rnd.choice(["past", "future", "current_period"])
+    if rnd.random() < 0.15:
+        st["RETURN_TIME_AS_PERIOD"] = True
+    if rnd.random() < 0.15:
+        st["PREFER_DAY_OF_MONTH"] = rnd.choice(["first", "last", "current"])
+    fm = None
+    if rnd.random() < 0.2:
+        fm = [rnd.choice(["%H:%M", "%Y-%m-%d %H:%M", "%I:%M %p", "%d %B %H:%M", "%A %H:%M"])]
+    return {"cls": "a", "s": s, "formats": fm, "kw": {"languages": ["en"]}, "settings": st}
+
+
 # ------------------------------------------------------------------ classes b, c, d
 def wrong_type_cases(g):
     rnd = g.rnd
@@ -482,6 +542,15 @@ def run_shard(ctx, desc):
             for i in range(desc["n"]):
                 c = gen_edge(g)
                 check_case(ctx, c)
+                if i % 200 == 0:
+                    cons.check()
+                if i < 2:
+                    ctx.sample({k: enc(v) for k, v in c.items()})
+        elif desc["part"] == "dst":
+            for i in range(desc["n"]):
+                c = gen_dst(g)
+                check_case(ctx, c)
+                ctx.count("dst_cases")
                 if i % 200 == 0:
                     cons.check()
                 if i < 2:
